@@ -28,20 +28,33 @@ Definition transcode_len (c : cfmt) (len : Z) : outcome Z :=
 Definition from_raw (w h len : Z) : outcome unit :=
   if 4 * w * h <=? len then Ok tt else Panic P_EXPECT.
 
-Definition produce_image (tbl : list cfmt) (guard : bool) (t : tex) : outcome unit :=
+Definition E_TEXBOUND : nat := 16.  (* "unreasonably large image" (fix d8a7ff5) *)
+
+(* the padded output image: `bound` = Some b after fix d8a7ff5 (checked additions, at most b pixels), None before it *)
+Definition output_image (bound : option Z) (t : tex) : outcome unit :=
+  let ow := t_w t + t_ox t in
+  let oh := t_h t + t_oy t in
+  match bound with
+  | Some b =>
+      if (two32 <=? ow) || (two32 <=? oh) || (b <? ow * oh) then Err E_TEXBOUND
+      else if ALLOC_LIMIT <? 4 * ow * oh then Panic P_ALLOC
+      else from_raw ow oh (4 * ow * oh)
+  | None =>
+      if (two32 <=? ow) || (two32 <=? oh) then Panic P_OVERFLOW      (* u32 addition *)
+      else if USIZE <=? 4 * ow * oh then Panic P_OVERFLOW             (* usize multiplication *)
+      else if ISIZE_MAX <? 4 * ow * oh then Panic P_CAPACITY
+      else if ALLOC_LIMIT <? 4 * ow * oh then Panic P_ALLOC
+      else from_raw ow oh (4 * ow * oh)
+  end.
+
+Definition produce_image (tbl : list cfmt) (guard : bool) (bound : option Z) (t : tex) : outcome unit :=
   match find_fmt tbl (t_fmt t) with
   | None => Err E_FORMAT
   | Some c =>
       if guard && negb (t_len t =? cf_bpp c * t_w t * t_h t) then Err E_TEXSIZE else
       do alen <- transcode_len c (t_len t);
       do r <- from_raw (t_w t) (t_h t) alen;
-      let ow := t_w t + t_ox t in
-      let oh := t_h t + t_oy t in
-      if (two32 <=? ow) || (two32 <=? oh) then Panic P_OVERFLOW      (* u32 addition *)
-      else if USIZE <=? 4 * ow * oh then Panic P_OVERFLOW             (* usize multiplication *)
-      else if ISIZE_MAX <? 4 * ow * oh then Panic P_CAPACITY
-      else if ALLOC_LIMIT <? 4 * ow * oh then Panic P_ALLOC
-      else from_raw ow oh (4 * ow * oh)
+      output_image bound t
   end.
 
 Definition tex_consistent (tbl : list cfmt) (t : tex) : Prop :=
@@ -52,3 +65,9 @@ Definition tex_in_range (t : tex) : Prop :=
   0 <= t_w t < 65536 /\ 0 <= t_h t < 65536 /\ 0 <= t_ox t /\ 0 <= t_oy t /\
   t_w t + t_ox t < two32 /\ t_h t + t_oy t < two32 /\
   4 * (t_w t + t_ox t) * (t_h t + t_oy t) <= ALLOC_LIMIT.
+
+(* with the pixel bound only the texture's own dimensions and the signs matter *)
+Definition tex_dims_ok (t : tex) : Prop :=
+  0 <= t_w t < 65536 /\ 0 <= t_h t < 65536 /\ 0 <= t_ox t /\ 0 <= t_oy t.
+Definition bound_ok (bound : option Z) : Prop := match bound with Some b => 0 <= b /\ 4 * b <= ALLOC_LIMIT | None => True end.
+Definition tex_ok_for (bound : option Z) (t : tex) : Prop := match bound with Some _ => tex_dims_ok t | None => tex_in_range t end.
